@@ -100,6 +100,31 @@ func init() {
 				t.Body = append(t.Body, &ref.Msg{Desc: "d", Body: []ref.Node{&ref.Raw{Text: text}}})
 				ctx.Cell("msg-at-end-of-file")
 			}
+			if i%10 == 1 {
+				// a long value (several KB) written by the last command, on every kind of write site that takes data:
+				// writers that only implement Write see whatever chunking the renderer does
+				prog = g.Bundle(1, 1)
+				t := prog.B.Files[0].Templates[0]
+				long := strings.Repeat("0123456789abcdef<&>\"'", 100+ctx.Rng.Intn(200))
+				v := &ref.Lit{V: ref.Str(long)}
+				var tail ref.Node
+				switch ctx.Rng.Intn(6) {
+				case 0:
+					tail = &ref.Print{E: v, Dirs: []ref.Dir{{Name: "noAutoescape"}}}
+				case 1:
+					tail = &ref.Print{E: v, Dirs: []ref.Dir{{Name: "id"}}}
+				case 2:
+					tail = &ref.Print{E: v}
+				case 3:
+					tail = &ref.Css{E: v, Suffix: "sfx"}
+				case 4:
+					tail = &ref.Print{E: v, Dirs: []ref.Dir{{Name: "escapeHtml"}}}
+				default:
+					tail = &ref.Msg{Desc: "d", Body: []ref.Node{&ref.Raw{Text: "m:"}, &ref.Print{E: v, Dirs: []ref.Dir{{Name: "noAutoescape"}}}}}
+				}
+				t.Body = append(t.Body, tail)
+				ctx.Cell("long-value-last")
+			}
 			files := bundleSources(prog.B, ref.Layout{})
 			segs, st := ref.Render(prog.B, prog.Entry, prog.Data, ref.RenderOpts{IJ: prog.IJ})
 			if st != ref.OK {
@@ -202,6 +227,9 @@ func init() {
 				if !cells["site:"+s] {
 					why = append(why, "write site never failed: "+s)
 				}
+			}
+			if !cells["long-value-last"] {
+				why = append(why, "no long value written by the last command")
 			}
 			if !cells["msg-at-end-of-file"] {
 				why = append(why, "no message at the end of a file")
